@@ -4,8 +4,6 @@ import (
 	"encoding/json"
 	"fmt"
 	"os"
-	"os/exec"
-	"path/filepath"
 	"regexp"
 	"strings"
 
@@ -148,33 +146,7 @@ var c18binary string
 
 // c18freshProcesses: the plain (uninstrumented) binary, two fresh processes, same output.
 func c18freshProcesses(e cliEntry, args []string) (string, string, string) {
-	run := func(tag string) (string, error) {
-		dir, err := os.MkdirTemp(filepath.Join(verifDir(), "build", "tmp"), "c18-")
-		if err != nil {
-			return "", err
-		}
-		defer os.RemoveAll(dir)
-		for n, content := range e.Files {
-			os.WriteFile(filepath.Join(dir, n), []byte(content), 0o644)
-		}
-		a := make([]string, len(args))
-		for i, s := range args {
-			a[i] = strings.ReplaceAll(s, "@/", dir+"/")
-		}
-		cmd := exec.Command(c18binary, a...)
-		cmd.Stdin = strings.NewReader(e.Stdin)
-		cmd.Dir = dir
-		var so, se strings.Builder
-		cmd.Stdout, cmd.Stderr = &so, &se
-		err = cmd.Run()
-		out := fmt.Sprintf("stdout=%q exit=%v", strings.ReplaceAll(so.String(), dir, "@"), err)
-		for _, n := range e.Out {
-			if b, err := os.ReadFile(filepath.Join(dir, strings.TrimPrefix(n, "@/"))); err == nil {
-				out += fmt.Sprintf(" %s=%q", n, strings.ReplaceAll(string(b), dir, "@"))
-			}
-		}
-		return out, nil
-	}
+	run := func(tag string) (string, error) { return cliFreshRun(c18binary, e, args) }
 	o1, err := run("a")
 	if err != nil {
 		return "C18/engine/tmpdir", err.Error(), ""
